@@ -15,7 +15,7 @@ func main() {
 	dir := os.Args[1]
 	var wg sync.WaitGroup
 	for _, bits := range []int{2048, 3072} {
-		for i := 0; i < 8; i++ {
+		for i := 0; i < 16; i++ {
 			wg.Add(1)
 			go func() {
 				defer wg.Done()
